@@ -13,6 +13,16 @@ package fstree
 // of the real call is undone, see notes/C13.md), the workload is joined, faults are
 // switched off, 20 more writes follow and everything is read back.
 //
+// Short writes are made REAL: when a "*.short" site fires, the callback (which runs in the
+// writing goroutine, for the shared batch with batchLock and the batch mutex held) cuts
+// the bytes off the temporary file again (fstat/ftruncate/lseek on the descriptor), so
+// the file holds a partial record exactly as after a partially accepted writev/write.
+// The "script" family keeps batches open by logic instead of by the clock: the sync
+// interval is one hour, the driver starts one Put after the other (the next one when the
+// previous one passed its write step or returned) and plays the timer itself (calls the
+// timer function of the open batch at seeded steps) – so writes that follow a failed one
+// land in the same batch window whatever the machine load is.
+//
 // Each case runs in a child process.  A child works through a list of cases and logs
 // "start i"/"done i"; when it dies (panic, fatal error) or proves a deadlock, the parent
 // attributes that to the case in progress and starts a new child for the rest.
@@ -27,6 +37,7 @@ import (
 	"path/filepath"
 	"runtime"
 	"sort"
+	"strconv"
 	"strings"
 	"sync"
 	"sync/atomic"
@@ -38,6 +49,7 @@ import (
 	"github.com/nspcc-dev/neofs-node/internal/verifkit"
 	"github.com/nspcc-dev/neofs-node/pkg/local_object_storage/blobstor/common"
 	oid "github.com/nspcc-dev/neofs-sdk-go/object/id"
+	"golang.org/x/sys/unix"
 )
 
 type vf13Cfg struct {
@@ -68,12 +80,19 @@ type vf13Workload struct {
 	Items  []vf13Item `json:"items"`
 	Conc   int        `json:"conc"`
 	Post   []vf13Obj  `json:"post"`
+	// Script: calls are started one after the other by the driver (logical batch window,
+	// see vf13RunScript); Flush lists the items after which the driver plays the sync timer.
+	Script bool  `json:"script,omitempty"`
+	Flush  []int `json:"flush,omitempty"`
 }
 
 type vf13Fault struct {
 	Site  string `json:"site"`
 	K     int    `json:"k"`
 	Errno int    `json:"errno"`
+	// Cut (only "*.short" sites): how much of the record just written is really missing
+	// from the file: 0 = one byte, 1..1000 = that many permille of the record (at least one byte).
+	Cut int `json:"cut,omitempty"`
 }
 
 type vf13Case struct {
@@ -111,6 +130,10 @@ type vf13Result struct {
 	RotWriter  int            `json:"rot_writer"`
 	RotTimer   int            `json:"rot_timer"`
 	Batches    int            `json:"batches"`
+	ShortReal  map[string]int `json:"short_real,omitempty"` // write path -> short writes whose bytes were really cut off
+	ShortFake  int            `json:"short_fake,omitempty"` // short writes where only the reported count was lowered
+	TimerFires int            `json:"timer_fires,omitempty"`
+	ScriptStep int            `json:"script_steps,omitempty"`
 }
 
 const vf13ExitInterrupted = 7 // child proved a deadlock / gave up on a hang: its goroutines are stuck, parent restarts
@@ -142,7 +165,7 @@ func vf13Make(o vf13Obj) (oid.Address, []byte) {
 type vf13Ctl struct {
 	mu      sync.Mutex
 	calls   map[string]int
-	plan    map[string]map[int]int // site -> k -> errno
+	plan    map[string]map[int]vf13Fault // site -> k -> fault
 	fired   []string
 	firedAt []int64
 	clock   atomic.Int64
@@ -152,6 +175,21 @@ type vf13Ctl struct {
 	opens   atomic.Int64
 	// generic writer (sequential families only): path of the write in flight, to undo an injected rename failure
 	curPath atomic.Pointer[string]
+
+	// real short writes
+	lw        *linuxWriter
+	root      string       // resolved root path as the kernel prints it in /proc/self/fd
+	seq       bool         // at most one call is in its write step at any time (sequential and script families)
+	preShared atomic.Int64 // size of the shared batch file before the writev in progress (writer holds batchLock)
+	fdBefore  map[int]bool // seq only: O_TMPFILE descriptors that existed before the private file/batch was opened
+	privFd    int          // seq only: descriptor of the private temporary file being written, -1 unknown
+	prePriv   int64        // seq only: its size before the write in progress
+	shortReal map[string]int
+	shortFake int
+	fires     atomic.Int64
+	// script family
+	stepArmed atomic.Bool
+	stepCh    chan struct{}
 }
 
 func (c *vf13Ctl) fault(site string) error {
@@ -160,7 +198,7 @@ func (c *vf13Ctl) fault(site string) error {
 	defer c.mu.Unlock()
 	c.calls[site]++
 	k := c.calls[site]
-	en, ok := c.plan[site][k]
+	f, ok := c.plan[site][k]
 	if !ok {
 		return nil
 	}
@@ -176,7 +214,118 @@ func (c *vf13Ctl) fault(site string) error {
 			_ = os.Remove(*p)
 		}
 	}
-	return syscall.Errno(en)
+	if strings.HasSuffix(site, ".short") {
+		// make the file match the reported short count: the tail of the record is cut off again
+		if path := c.cutTail(f.Cut); path != "" {
+			c.shortReal[path]++
+		} else {
+			c.shortFake++
+		}
+	}
+	return syscall.Errno(f.Errno)
+}
+
+// cutTail removes the last bytes of the record that the calling goroutine has just
+// written to its temporary file (the injected short count becomes a real partial write).
+// It only uses descriptors the calling goroutine owns at this moment: the shared batch
+// (the caller is inside writeCombinedFile and holds batchLock and the batch mutex) or, in
+// families with one write at a time, the private temporary file found at the preceding
+// hook point.  Returns the write path, "" when nothing was cut (count-only short write).
+// No file-system call of the code under test is involved, c.mu may stay locked.
+func (c *vf13Ctl) cutTail(cut int) string {
+	path := vf13WritePath()
+	fd, pre := -1, int64(0)
+	switch path {
+	case "combined":
+		if c.lw != nil && c.lw.batch != nil {
+			fd, pre = c.lw.batch.fd, c.preShared.Load()
+		}
+	case "batch", "file":
+		if c.seq {
+			fd, pre = c.privFd, c.prePriv
+		}
+	}
+	if fd < 0 || pre < 0 {
+		return ""
+	}
+	var st unix.Stat_t
+	if unix.Fstat(fd, &st) != nil {
+		return ""
+	}
+	off, err := unix.Seek(fd, 0, 1)
+	n := st.Size - pre
+	if err != nil || off != st.Size || n <= 0 {
+		return "" // not the state expected right after an appending write: leave it alone
+	}
+	d := int64(1)
+	if cut > 0 {
+		d = min(max(n*int64(cut)/1000, 1), n)
+	}
+	if unix.Ftruncate(fd, st.Size-d) != nil {
+		return ""
+	}
+	if _, err := unix.Seek(fd, -d, 1); err != nil {
+		return ""
+	}
+	return path
+}
+
+// vf13WritePath tells which writer function the calling goroutine is in.
+func vf13WritePath() string {
+	var pcs [32]uintptr
+	n := runtime.Callers(2, pcs[:])
+	fr := runtime.CallersFrames(pcs[:n])
+	for {
+		f, more := fr.Next()
+		switch {
+		case strings.HasSuffix(f.Function, "(*linuxWriter).writeCombinedFile"):
+			return "combined"
+		case strings.HasSuffix(f.Function, "(*linuxWriter).writeBatch"):
+			return "batch"
+		case strings.HasSuffix(f.Function, "(*linuxWriter).writeFile"):
+			return "file"
+		}
+		if !more {
+			return ""
+		}
+	}
+}
+
+// vf13TmpFds lists the descriptors of this process that refer to unlinked (O_TMPFILE) files of the tree.
+func vf13TmpFds(root string) map[int]bool {
+	m := map[int]bool{}
+	ents, err := os.ReadDir("/proc/self/fd")
+	if err != nil {
+		return m
+	}
+	for _, e := range ents {
+		n, err := strconv.Atoi(e.Name())
+		if err != nil {
+			continue
+		}
+		if tgt, err := os.Readlink("/proc/self/fd/" + e.Name()); err == nil && strings.HasPrefix(tgt, root+"/#") {
+			m[n] = true
+		}
+	}
+	return m
+}
+
+// notePrivate finds the private temporary file opened since the last snapshot (seq families only).
+func (c *vf13Ctl) notePrivate() {
+	c.privFd, c.prePriv = -1, -1
+	var cand []int
+	for fd := range vf13TmpFds(c.root) {
+		if !c.fdBefore[fd] {
+			cand = append(cand, fd)
+		}
+	}
+	if len(cand) != 1 {
+		return
+	}
+	var st unix.Stat_t
+	if unix.Fstat(cand[0], &st) == nil {
+		c.privFd, c.prePriv = cand[0], st.Size
+	}
 }
 
 func (c *vf13Ctl) point(name string) {
@@ -190,6 +339,59 @@ func (c *vf13Ctl) point(name string) {
 		}
 	case "fstree.linux.batch.open.before":
 		c.opens.Add(1)
+		if c.seq && vf13WritePath() == "batch" {
+			c.mu.Lock()
+			c.fdBefore = vf13TmpFds(c.root)
+			c.mu.Unlock()
+		}
+	case "fstree.linux.file.open.before":
+		if c.seq {
+			c.mu.Lock()
+			c.fdBefore = vf13TmpFds(c.root)
+			c.mu.Unlock()
+		}
+	case "fstree.linux.file.write.before":
+		if c.seq {
+			c.mu.Lock()
+			c.notePrivate()
+			c.mu.Unlock()
+		}
+	case "fstree.linux.batch.writev.before":
+		switch vf13WritePath() {
+		case "combined": // the caller holds batchLock and the batch mutex
+			c.preShared.Store(-1)
+			if c.lw != nil && c.lw.batch != nil {
+				var st unix.Stat_t
+				if unix.Fstat(c.lw.batch.fd, &st) == nil {
+					c.preShared.Store(st.Size)
+				}
+			}
+		case "batch":
+			if c.seq {
+				c.mu.Lock()
+				c.notePrivate()
+				c.mu.Unlock()
+			}
+		}
+	case "fstree.linux.batch.linkat.after":
+		if c.stepArmed.Load() {
+			select {
+			case c.stepCh <- struct{}{}:
+			default:
+			}
+		}
+	}
+}
+
+// fireTimer plays the sync timer of the currently open shared batch: it calls the very
+// function the timer would call, from a goroutine that holds no writer lock.
+func (c *vf13Ctl) fireTimer() {
+	c.lw.batchLock.Lock()
+	sb := c.lw.batch
+	c.lw.batchLock.Unlock()
+	if sb != nil {
+		c.fires.Add(1)
+		sb.sync()
 	}
 }
 
@@ -267,12 +469,18 @@ func vf13RunCase(dir string, w vf13Workload, cs vf13Case) (res vf13Result) {
 	for i, o := range w.Objs {
 		addrs[i], datas[i] = vf13Make(o)
 	}
-	ctl := &vf13Ctl{calls: map[string]int{}, plan: map[string]map[int]int{}}
+	ctl := &vf13Ctl{calls: map[string]int{}, plan: map[string]map[int]vf13Fault{}, lw: lw, root: fst.RootPath,
+		seq: w.Script || max(w.Conc, 1) == 1, privFd: -1, shortReal: map[string]int{}, stepCh: make(chan struct{}, 1)}
+	if rp, err := filepath.EvalSymlinks(fst.RootPath); err == nil {
+		if rp, err = filepath.Abs(rp); err == nil {
+			ctl.root = rp
+		}
+	}
 	for _, f := range cs.Faults {
 		if ctl.plan[f.Site] == nil {
-			ctl.plan[f.Site] = map[int]int{}
+			ctl.plan[f.Site] = map[int]vf13Fault{}
 		}
-		ctl.plan[f.Site][f.K] = f.Errno
+		ctl.plan[f.Site][f.K] = f
 	}
 	verifhook.SetFault(ctl.fault)
 	verifhook.SetPoint(ctl.point)
@@ -285,6 +493,9 @@ func vf13RunCase(dir string, w vf13Workload, cs vf13Case) (res vf13Result) {
 	next := atomic.Int64{}
 	var wg sync.WaitGroup
 	conc := max(w.Conc, 1)
+	if w.Script {
+		conc = 0 // the driver below starts the calls
+	}
 	for g := 0; g < conc; g++ {
 		wg.Add(1)
 		go func() {
@@ -320,7 +531,9 @@ func vf13RunCase(dir string, w vf13Workload, cs vf13Case) (res vf13Result) {
 		}()
 	}
 	done := make(chan struct{})
-	go func() { wg.Wait(); close(done) }()
+	if !w.Script {
+		go func() { wg.Wait(); close(done) }()
+	}
 	firedSites := func() string {
 		ctl.mu.Lock()
 		defer ctl.mu.Unlock()
@@ -349,10 +562,46 @@ func vf13RunCase(dir string, w vf13Workload, cs vf13Case) (res vf13Result) {
 				res.Sites[k] = v
 			}
 		}
+		res.ShortReal = map[string]int{}
+		for k, v := range ctl.shortReal {
+			res.ShortReal[k] = v
+		}
+		res.ShortFake = ctl.shortFake
 		ctl.mu.Unlock()
 		res.RotWriter, res.RotTimer, res.Batches = int(ctl.rotW.Load()), int(ctl.rotT.Load()), int(ctl.opens.Load())
+		res.TimerFires = int(ctl.fires.Load())
 	}
-	if oc, detail := vf13Await(done, prog, lw); oc != "ok" {
+	scriptOutcome, scriptDetail := "ok", ""
+	if w.Script {
+		flush := map[int]bool{}
+		for _, i := range w.Flush {
+			flush[i] = true
+		}
+		scriptOutcome, scriptDetail = vf13RunScript(ctl, lw, prog, len(w.Items), func(i int) bool { return !w.Items[i].Batch }, func(i int) bool { return flush[i] },
+			func(i int) {
+				it := w.Items[i]
+				p := &puts[i]
+				p.item = i
+				p.c0 = ctl.clock.Add(1)
+				if it.Batch {
+					m := map[oid.Address][]byte{}
+					for _, o := range it.Objs {
+						m[addrs[o]] = datas[o]
+					}
+					p.err = fst.PutBatch(m)
+				} else {
+					p.err = fst.Put(addrs[it.Objs[0]], datas[it.Objs[0]])
+				}
+				p.c1 = ctl.clock.Add(1)
+				p.returned = true
+			})
+		res.ScriptStep += len(w.Items)
+		close(done)
+	}
+	if oc, detail := vf13Await(done, prog, lw); oc != "ok" || scriptOutcome != "ok" {
+		if oc == "ok" {
+			oc, detail = scriptOutcome, scriptDetail
+		}
 		collect()
 		res.Outcome, res.Detail = oc, detail
 		if oc == "deadlock" {
@@ -363,7 +612,7 @@ func vf13RunCase(dir string, w vf13Workload, cs vf13Case) (res vf13Result) {
 	collect()
 	ctl.mu.Lock()
 	firedAt := append([]int64(nil), ctl.firedAt...)
-	ctl.plan = map[string]map[int]int{} // faults off
+	ctl.plan = map[string]map[int]vf13Fault{} // faults off
 	ctl.mu.Unlock()
 	ctl.curPath.Store(nil)
 
@@ -419,7 +668,20 @@ func vf13RunCase(dir string, w vf13Workload, cs vf13Case) (res vf13Result) {
 		paddrs[i], pdatas[i] = vf13Make(o)
 	}
 	done2 := make(chan struct{})
+	if w.Script {
+		// the batch window is logical in this family: one write after the other, the driver plays the timer
+		scriptOutcome, scriptDetail = vf13RunScript(ctl, lw, prog, len(w.Post), func(int) bool { return true }, func(i int) bool { return i%3 == 2 },
+			func(i int) {
+				ctl.clock.Add(1)
+				perrs[i] = fst.Put(paddrs[i], pdatas[i])
+			})
+		res.ScriptStep += len(w.Post)
+		close(done2)
+	}
 	go func() {
+		if w.Script {
+			return
+		}
 		defer close(done2)
 		half := len(w.Post) / 2
 		for i := 0; i < half; i++ {
@@ -437,7 +699,10 @@ func vf13RunCase(dir string, w vf13Workload, cs vf13Case) (res vf13Result) {
 		}
 		wg2.Wait()
 	}()
-	if oc, detail := vf13Await(done2, prog, lw); oc != "ok" {
+	if oc, detail := vf13Await(done2, prog, lw); oc != "ok" || scriptOutcome != "ok" {
+		if oc == "ok" {
+			oc, detail = scriptOutcome, scriptDetail
+		}
 		collect()
 		res.Outcome, res.Detail = oc, detail
 		if oc == "deadlock" {
@@ -475,6 +740,50 @@ func vf13RunCase(dir string, w vf13Workload, cs vf13Case) (res vf13Result) {
 	}
 	collect()
 	return
+}
+
+// vf13RunScript starts n calls one after the other: call i+1 is started when call i has
+// passed its write step (hook point after the link of a combined write; armed(i) tells
+// whether that point belongs to call i alone) or has returned.  After the calls for which
+// flush(i) holds and after the last one the driver plays the sync timer of the open
+// batch.  Then it waits for all calls.  Nothing depends on the clock: the configured sync
+// interval of the family is an hour.
+func vf13RunScript(ctl *vf13Ctl, lw *linuxWriter, prog func() int64, n int, armed, flush func(int) bool, call func(int)) (string, string) {
+	var wg sync.WaitGroup
+	await := func(f func()) (string, string) {
+		d := make(chan struct{})
+		go func() { defer close(d); f() }()
+		return vf13Await(d, prog, lw)
+	}
+	for i := 0; i < n; i++ {
+		select {
+		case <-ctl.stepCh:
+		default:
+		}
+		ctl.stepArmed.Store(armed(i))
+		ret := make(chan struct{})
+		wg.Add(1)
+		go func() {
+			defer wg.Done()
+			defer close(ret)
+			call(i)
+		}()
+		if oc, detail := await(func() {
+			select {
+			case <-ctl.stepCh:
+			case <-ret:
+			}
+		}); oc != "ok" {
+			return oc, detail
+		}
+		ctl.stepArmed.Store(false)
+		if flush(i) || i == n-1 {
+			if oc, detail := await(ctl.fireTimer); oc != "ok" {
+				return oc, detail
+			}
+		}
+	}
+	return await(wg.Wait)
 }
 
 // vf13Await waits for done.  When nothing at all moved for a while (no hook passed, no
@@ -647,8 +956,68 @@ func vf13Workloads(r *verifkit.Run) []vf13Workload {
 		// portable writer
 		ws = append(ws, mk(rng, "generic-seq", vf13Cfg{Generic: true, Depth: 1, CountLimit: 128, SizeLimit: 1 << 20, Threshold: 4096, IntervalMs: 2},
 			2+rng.IntN(3), 1, small, 3))
+		// logical batch window: the sync interval is an hour, batches are closed by the count limit or by the
+		// driver playing the timer; the calls are started one after the other, so every write that follows
+		// another one before the window closes shares its batch file – also a write that follows a failed one
+		ws = append(ws, vf13ScriptWorkload(rng, vf13Cfg{Depth: 1, CountLimit: 3 + rng.IntN(3), SizeLimit: 1 << 20, Threshold: 2048, IntervalMs: 3600_000, NoSync: rd%2 == 0}))
 	}
 	return ws
+}
+
+func vf13ScriptWorkload(rng *rand.Rand, cfg vf13Cfg) vf13Workload {
+	w := vf13Workload{Family: "script-long-window", Cfg: cfg, Conc: 1, Script: true}
+	n := 6 + rng.IntN(4)
+	big, pb := -1, -1
+	if rng.IntN(2) == 0 {
+		big = 1 + rng.IntN(n-1) // one single-file write in between
+	}
+	if rng.IntN(2) == 0 {
+		pb = 1 + rng.IntN(n-1) // one PutBatch (private batch file) in between
+	}
+	for i := 0; i < n; i++ {
+		switch i {
+		case big:
+			w.Objs = append(w.Objs, vf13Obj{rng.Uint64(), rng.Uint64(), cfg.Threshold + 50 + rng.IntN(1500)})
+			w.Items = append(w.Items, vf13Item{Objs: []int{len(w.Objs) - 1}})
+		case pb:
+			it := vf13Item{Batch: true}
+			for j, m := 0, 2+rng.IntN(2); j < m; j++ {
+				w.Objs = append(w.Objs, vf13Obj{rng.Uint64(), rng.Uint64(), 20 + rng.IntN(300)})
+				it.Objs = append(it.Objs, len(w.Objs)-1)
+			}
+			w.Items = append(w.Items, it)
+		default:
+			w.Objs = append(w.Objs, vf13Obj{rng.Uint64(), rng.Uint64(), 20 + rng.IntN(600)})
+			w.Items = append(w.Items, vf13Item{Objs: []int{len(w.Objs) - 1}})
+		}
+		if i < n-1 && rng.IntN(5) == 0 {
+			w.Flush = append(w.Flush, i) // the timer fires after this call
+		}
+	}
+	for i := 0; i < 20; i++ {
+		pl := 30 + rng.IntN(300)
+		if i%7 == 3 {
+			pl = cfg.Threshold + 100 + rng.IntN(500)
+		}
+		w.Post = append(w.Post, vf13Obj{rng.Uint64(), rng.Uint64(), pl})
+	}
+	return w
+}
+
+// vf13Arm completes a fault point: the error to report and, for short writes, how much of the record is really missing.
+func vf13Arm(rng *rand.Rand, f vf13Fault) vf13Fault {
+	f.Errno = []int{int(syscall.ENOSPC), int(syscall.EIO)}[rng.IntN(2)]
+	if strings.HasSuffix(f.Site, ".short") {
+		switch rng.IntN(4) {
+		case 0:
+			f.Cut = 0 // one byte
+		case 1:
+			f.Cut = 1000 // nothing of the record arrived
+		default:
+			f.Cut = 1 + rng.IntN(999)
+		}
+	}
+	return f
 }
 
 func TestVerif_C13(t *testing.T) {
@@ -662,8 +1031,8 @@ func TestVerif_C13(t *testing.T) {
 		r.Inconclusive("verifhook not compiled in")
 		return
 	}
-	r.SetRule("workload families (each write crosses the size limit / timer-only sync / count limit under concurrency / size limit under concurrency / mixed with single files and PutBatch up to 300 calls on 2-16 goroutines / PutBatch / single-file / portable writer); a dry run counts the calls of every fault site; cases = every single (site,k) for small workloads, sampled (site,k) for big ones, plus sampled pairs; a case is non-trivial when at least one injected failure really fired; distinct = (workload, fired sites with k)")
-	r.Assume("fault model of hook commit H2: the failure is injected right after the real syscall; for open/link the effect of the real call is undone so the file system matches the reported failure; written bytes stay in the (unlinked or trailing) temporary data")
+	r.SetRule("workload families (each write crosses the size limit / timer-only sync / count limit under concurrency / size limit under concurrency / mixed with single files and PutBatch up to 300 calls on 2-16 goroutines / PutBatch / single-file / portable writer / scripted calls inside a logical batch window: sync interval 1 h, the driver starts the next call when the previous one passed its write step and plays the timer at seeded steps); short writes really leave a partial record (1 byte .. the whole record cut off the temporary file again); a dry run counts the calls of every fault site; cases = every single (site,k) for small workloads, sampled (site,k) for big ones, plus sampled pairs; a case is non-trivial when at least one injected failure really fired; distinct = (workload, fired sites with k)")
+	r.Assume("fault model of hook commit H2: the failure is injected right after the real syscall; for open/link the effect of the real call is undone so the file system matches the reported failure; written bytes of a failed write stay in the (unlinked or trailing) temporary data; for a short write the harness cuts the missing bytes off the temporary file again (shared batch always; private batch / single file in the one-write-at-a-time families)")
 	r.Assume("'not affected' is decided from the outside: no injected failure happened between the start and the return of the call")
 	scratch := os.Getenv("VERIF_SCRATCH")
 	if scratch == "" {
@@ -683,7 +1052,6 @@ func TestVerif_C13(t *testing.T) {
 	}
 	dryRes := vf13Exec(r, root, "dry", ws, dry, 4)
 	var cases []vf13Case
-	errnos := []int{int(syscall.ENOSPC), int(syscall.EIO)}
 	for wi := range ws {
 		dr, ok := dryRes[wi]
 		if !ok || dr.Outcome != "ok" || len(dr.Viol) > 0 {
@@ -711,7 +1079,7 @@ func TestVerif_C13(t *testing.T) {
 		r.Count("fault_points_in_dry_runs", len(pts))
 		singles := pts
 		maxSingles := r.Pick(36, 150)
-		if len(singles) > maxSingles {
+		if len(singles) > maxSingles && !ws[wi].Script { // script workloads are small and cheap: all singles
 			// keep the first and the last call of every site, sample the rest
 			keep := map[int]bool{}
 			for i, p := range pts {
@@ -730,15 +1098,13 @@ func TestVerif_C13(t *testing.T) {
 			}
 		}
 		for _, p := range singles {
-			p.Errno = errnos[rng.IntN(2)]
-			cases = append(cases, vf13Case{W: wi, Faults: []vf13Fault{p}})
+			cases = append(cases, vf13Case{W: wi, Faults: []vf13Fault{vf13Arm(rng, p)}})
 		}
 		nPairs := r.Pick(10, 60)
 		if all := len(pts) * (len(pts) - 1) / 2; all <= nPairs {
 			for a := 0; a < len(pts); a++ {
 				for b := a + 1; b < len(pts); b++ {
-					fa, fb := pts[a], pts[b]
-					fa.Errno, fb.Errno = errnos[rng.IntN(2)], errnos[rng.IntN(2)]
+					fa, fb := vf13Arm(rng, pts[a]), vf13Arm(rng, pts[b])
 					cases = append(cases, vf13Case{W: wi, Faults: []vf13Fault{fa, fb}})
 				}
 			}
@@ -750,8 +1116,7 @@ func TestVerif_C13(t *testing.T) {
 					continue
 				}
 				seen[[2]int{min(a, b), max(a, b)}] = true
-				fa, fb := pts[a], pts[b]
-				fa.Errno, fb.Errno = errnos[rng.IntN(2)], errnos[rng.IntN(2)]
+				fa, fb := vf13Arm(rng, pts[a]), vf13Arm(rng, pts[b])
 				cases = append(cases, vf13Case{W: wi, Faults: []vf13Fault{fa, fb}})
 			}
 		}
@@ -792,6 +1157,12 @@ func TestVerif_C13(t *testing.T) {
 		r.Count("failed_calls_whose_object_is_readable", res.ErrReadOK)
 		r.Count("batches_closed_by_writer", res.RotWriter)
 		r.Count("batches_closed_by_timer", res.RotTimer)
+		for k, v := range res.ShortReal {
+			r.Count("short_writes_bytes_really_missing|"+k, v)
+		}
+		r.Count("short_writes_count_only", res.ShortFake)
+		r.Count("script_calls_started_in_logical_window", res.ScriptStep)
+		r.Count("script_timer_played_by_driver", res.TimerFires)
 		r.Seen("outcomes", res.Outcome)
 		for _, s := range res.ErrShapes {
 			r.Seen("error_shapes", s)
